@@ -144,6 +144,10 @@ func CallFor(t *rapid.T, s recipe.Sig, depth, width int) recipe.Call {
 				c.Tag = append(c.Tag, recipe.TagKV{K: recipe.Text(rapid.SampledFrom([]string{"json", "xml", "db", "a"}).Draw(t, "tagk") + strings.Repeat("x", i)), V: recipe.Text(Str(t, "tag"))})
 			}
 		case recipe.POptions:
+			if rapid.IntRange(0, 5).Draw(t, "zerooptions") == 0 {
+				c.Opts = &recipe.Opts{} // the zero Options: no delimiters, nothing between the items
+				continue
+			}
 			c.Opts = &recipe.Opts{
 				Open:      recipe.Text(rapid.SampledFrom([]string{"", "(", "[", "{", "<", "begin "}).Draw(t, "open")),
 				Close:     recipe.Text(rapid.SampledFrom([]string{"", ")", "]", "}", ">", " end"}).Draw(t, "close")),
